@@ -12,6 +12,7 @@ package main
 import (
 	"context"
 	"fmt"
+	"math"
 	"os"
 	"runtime"
 	"sort"
@@ -423,7 +424,7 @@ func (w *world) workers(r *rec) string {
 	names := w.runningNames()
 	type no struct{ n, o int }
 	var l []no
-	prev := -1 << 62
+	prev := math.MinInt
 	for _, s := range names {
 		n, err := strconv.Atoi(s)
 		if err != nil {
@@ -720,7 +721,7 @@ func main() {
 	r := hx.Start()
 	r.MaxSamples = 4
 	r.Rule = "scripts over BackgroundWorker(name,order,kind)/Start/Run/Shutdown/ShutdownAndWait/finish with orders from " +
-		"{-7,-3,-1,0,0,1,2,2,5,9} and worker kinds c(ancel-responsive) s(low) h(old until equal-order peers are cancelled) " +
+		"{-7,-3,-1,0,0,1,2,2,5,9} or, in a quarter of the cases, {MaxInt,MaxInt-1,MinInt,MinInt+1,-2,-1,0,2,5} and worker kinds c(ancel-responsive) s(low) h(old until equal-order peers are cancelled) " +
 		"g(ated) x(exits at once) l(ingers for Run); non-trivial = a shutdown that cancelled live workers of at least two " +
 		"distinct orders or hit a refusal/early-finish/re-registration/forced-window branch; distinct by sha256 of script+event log"
 	var cases []caseSpec
